@@ -127,3 +127,46 @@ Proof.
   - destruct (existsb _ KNOWN_SKIP) eqn:X; [|discriminate]. intros _.
     apply existsb_exists in X as (k & Hk & S). exists k. auto.
 Qed.
+
+(** * rendered port expressions parse back to the same object (C06, component level) *)
+Lemma items_to_ints_render tb nr l :
+  table_ok tb = true -> items_to_ints (Some tb) (map (render_port_item nr tb) l) = Ok l.
+Proof.
+  intros OK. induction l as [|x t IH]; cbn [map items_to_ints]; auto.
+  pose proof (port_item_roundtrip tb nr x OK) as R. unfold parse_port_item in R.
+  destruct (undec (render_port_item nr tb x)) as [n|] eqn:U.
+  - injection R as ->. cbn [bind]. rewrite IH. reflexivity.
+  - unfold parse_port_item. rewrite U. rewrite R. cbn [bind]. rewrite IH. reflexivity.
+Qed.
+
+Theorem port_text_fixpoint pr pl v15 nr o xs p :
+  parse_nums pl (Some (pr, pl, v15)) o xs = Ok p ->
+  parse_port pl (Some (pr, pl, v15)) (render_port nr (Some (pr, pl, v15)) p) = Ok p.
+Proof.
+  intros HP. destruct xs as [|x0 t0] eqn:EX.
+  { unfold parse_nums, parse_port in HP. rewrite pop_of_name in HP. discriminate. }
+  rewrite <- EX in *. assert (NE : xs <> []) by (rewrite EX; discriminate). clear EX x0 t0.
+  pose proof HP as HP0. rewrite parse_nums_eq in HP by auto.
+  destruct (valid_count _ o (length xs)) eqn:VC; [|discriminate].
+  destruct (items_to_ports o (sortN xs)) as [ps| | | |k] eqn:IP; try discriminate.
+  cbn [bind] in HP. injection HP as <-.
+  unfold render_port. cbn [p_op p_items].
+  destruct (sortN xs) as [|s0 st] eqn:ES.
+  { exfalso. apply (f_equal (@length N)) in ES. rewrite sortN_length in ES. destruct xs; [congruence|discriminate]. }
+  rewrite <- ES in *.
+  unfold parse_port. rewrite pop_of_name.
+  destruct (map (render_port_item nr (names_table pr pl v15)) (sortN xs)) as [|m0 mt] eqn:EM.
+  { rewrite ES in EM. discriminate. }
+  rewrite <- EM. cbn [ctx_table].
+  rewrite (items_to_ints_render _ nr (sortN xs) (names_table_ok pr pl v15)). cbn [bind].
+  rewrite sortN_length, sortN_idem.
+  assert (B : (match o with
+               | Lt | Gt => negb (Nat.eqb (length xs) 1)
+               | Range => negb (Nat.eqb (length xs) 2)
+               | Eq | Neq => ctx_platform_single pl && negb (Nat.eqb (length xs) 1)
+               end) = false).
+  { destruct o, (ctx_platform_single pl); cbn [valid_count negb orb andb] in *;
+      try (rewrite VC; reflexivity); try reflexivity; rewrite negb_true_iff in *; auto;
+      try (now rewrite VC). }
+  rewrite B. rewrite IP. reflexivity.
+Qed.
